@@ -122,4 +122,13 @@ PROPS = {
         rule="every SST with/without SD; requested NSSAI lists of 0..12 entries over the five element forms (homogeneous and mixed), truncations, corrupted and all 256 head length octets; rejected NSSAI 0..8 + 0..8 entries; TAI lists of 1..20 entries x five PLMN-mix modes (one PLMN, all different, same MCC / different MNC, 2- vs 3-digit MNC, last entry differs); LADN with DNN lengths 0..255; service-area lists of 0..20 TACs x both restriction types; LADN indications valid and mutated; non-trivial = distinct op answered with a value",
         assumptions=["lists outside the property's ranges (17+ TAIs, 0 TACs, contents over 255 octets) are compared between model and implementation but not judged by the oracle"],
     ),
+    "C15": dict(
+        level="proof", modules=["NasVerif.Props.C15"], parts=[],
+        streams=[("qos", 300, 2500)], oracle="C15",
+        trusted_base=TB_COMMON[:1] + ["hand-written Model/Qos.lean mirrors nasType/qos_flow_desc.go and qos_rule.go (bytes.Buffer + binary.Read modelled as list consumption with io.EOF / io.ErrUnexpectedEOF distinguished, buf.Next(n) = at most what is left; components and parameters as inductive types); tied by the correspondence run",
+                                        "encoding/binary BigEndian Put/Read and net.IP / net.HardwareAddr as plain octet strings: modelled, not verified",
+                                        "tools/harness/qos.go holds independent encoders written from TS 24.501 Figures 9.11.4.12.x / 9.11.4.13.x (layout oracle, wire-input generator)"],
+        rule="both parsers: every input of length 0..1, length 2 sampled (thorough: all 65 536), random 3..14 octets; well-formed lists from an independent figure-based encoder (all 7 parameter kinds, 0/1/7/63 parameters; all 18 component types, 0..15 filters, operations 1..6 incl. delete lists) parsed whole, truncated at every octet and mutated; unknown parameter / component identifiers planted at identifier positions; every (identifier, length) mismatch 0..8 x 0..5; serialise-and-reparse of the same lists; counts at the 6-bit / 4-bit boundaries and oversize values for the correspondence; non-trivial = distinct op answered with a value",
+        assumptions=["lists outside the well-formed set (64+ parameters, 16+ filters, flow label >= 2^19, wrong address lengths, > 255 octets of components) are compared between model and implementation but not judged by the oracle"],
+    ),
 }
